@@ -519,6 +519,7 @@ pub fn c06() -> Result<u64, String> {
     let mut fit = 4064usize; while fit > 1000 && dir_enc(&mk(fit, &mut Rng::new(1))).len() > 16257 { fit -= 1; }
     let mut plan: Vec<(usize, usize)> = Vec::new();
     for &len in &[0usize, 1, 2, 100, 4000, 4063, 4064, 4070, 4095, 4096, 4097, 9000, 17000, 20000] { plan.push((len, 5)); }
+    plan.push((21845, 6)); plan.push((40000, 6));   // (pre == 6: highly regular entries -- see below -- that fit a single root when compressed)
     for pre in [127usize, 1000, 70000] { plan.push((fit, pre)); plan.push((fit - 1, pre)); plan.push((fit + 1, pre)); plan.push((9000, pre)); }
     for &(len, pre) in &plan { for c in COMPS { for start in [None, Some(1usize), Some(7), Some(4096), Some(100_000)] {
         if start == Some(1) && len > 4100 && !(len == 9000 && pre == 70000) && !(len == 17000) { continue; }
@@ -526,7 +527,9 @@ pub fn c06() -> Result<u64, String> {
         if len == 17000 && !(c == Compression::None && (start == Some(1) || start == Some(7))) { continue; }
         n += 1;
         // entries sized so that the uncompressed encoding is about 4 bytes per entry (root lands around the 16 KiB window at ~4064 entries)
-        let es: Vec<E> = if pre != 5 && (len == fit || len == fit - 1 || len == fit + 1) { mk(len, &mut Rng::new(1)) } else { mk(len, &mut r) };
+        if pre == 6 && (c == Compression::None || start.is_some()) { continue; }
+        let es: Vec<E> = if pre == 6 { (0..len as u64).map(|i| E { id: i, off: i * 7, len: 7, run: 1 }).collect() }
+            else if pre != 5 && (len == fit || len == fit - 1 || len == fit + 1) { mk(len, &mut Rng::new(1)) } else { mk(len, &mut r) };
         let mut out = Cursor::new(vec![0x11u8; pre]); out.seek(SeekFrom::Start(pre as u64)).unwrap();
         let strat = start.map(|s| util::WriteDirsOverflowStrategy::OnlyLeafPointers { start_size: Some(s) });
         let leaves = util::write_directories(&mut out, &to_entries(&es), c, strat).map_err(|e| format!("write_directories failed: {e}"))?;
@@ -691,6 +694,20 @@ pub fn c15() -> Result<u64, String> {
                 if pm.num_tiles() != tiles.len() { return Ok(format!("open reported success with {} of {} tiles", pm.num_tiles(), tiles.len())); }
                 for id in tiles.keys().take(3) { if pm.get_tile_by_id(*id)?.is_none() { return Ok(format!("lookup of existing tile {id} reported 'no such tile'")); } } Ok(String::new()) });
             match res { Ok(Err(_)) => {}, Ok(Ok(m)) => return Err(format!("open+lookups returned Ok although the stream fails from operation {f} of {ops} ({c:?}, {} tiles) {m}", tiles.len())), Err(p) => return Err(format!("open panicked on a fault at operation {f}: {p}")) } }
+        // lookups that CONTINUE after a failed lookup (same tile again, tiles sharing its content): an answer is an error or the right bytes
+        if size <= 100 {
+            let mut dup = tiles.clone(); let first = tiles.iter().next().map(|(k, v)| (*k, v.clone())); if let Some((k0, v0)) = first { dup.insert(k0 + 500, v0.clone()); dup.insert(k0 + 501, v0); }
+            let (dbytes, _) = write_at(build(&dup, c, &Default::default()), 0).map_err(|e| e.to_string())?;
+            let order: Vec<u64> = dup.keys().chain(dup.keys()).copied().collect();
+            let mut s0 = FaultyStream::with_bytes(dbytes.clone(), usize::MAX); { let mut pm = PMTiles::from_reader(&mut s0).map_err(|e| e.to_string())?; for id in &order { let _ = pm.get_tile_by_id(*id); } } let ops2 = s0.ops();
+            for f in 0..ops2 { n += 1; let mut s = FaultyStream::with_bytes(dbytes.clone(), f);
+                let Ok(Ok(mut pm)) = quiet(|| PMTiles::from_reader(&mut s)) else { continue };
+                for id in &order { match quiet(|| pm.get_tile_by_id(*id)) {
+                    Ok(Ok(Some(b))) => if &b != &dup[id] { return Err(format!("the stream fails from operation {f} of {ops2}: a later lookup of tile {id} returned Ok with wrong bytes ({} bytes, first {:?}) ({c:?})", b.len(), b.first())); },
+                    Ok(Ok(None)) => return Err(format!("the stream fails from operation {f} of {ops2}: lookup of existing tile {id} reported 'no such tile' ({c:?})")),
+                    Ok(Err(_)) => {}, Err(p) => return Err(format!("lookup panicked after a fault at operation {f}: {p}")) } }
+            }
+        }
         // re-write of an opened archive while the SOURCE stream fails
         let mut s = FaultyStream::with_bytes(full.clone(), usize::MAX); { let pm = PMTiles::from_reader(&mut s).map_err(|e| e.to_string())?; pm.to_writer(&mut Cursor::new(Vec::new())).map_err(|e| e.to_string())?; } let ops = s.ops();
         for f in 0..ops { n += 1; let mut s = FaultyStream::with_bytes(full.clone(), f);
